@@ -5,6 +5,10 @@ ROOT = os.path.dirname(os.path.dirname(os.path.abspath(__file__)))
 props = [json.loads(l) for l in open(os.path.join(ROOT, "properties.jsonl"))]
 
 CHECKS = {
+ "C05": dict(engine="hygiene", design="5 C05, 3.7, Appendix C",
+   technique="TLC model checking of Hygiene.tla (sequential identifier allocator + namespace/scope model of the emitted module) over all assignments of hostile pool names to user roles + comparison of the real allocator's choices (hook) + rustc compilation of every real emitted module on its own with derive-less payload types",
+   text="Hygiene.tla models create_unique_identifier as a sequential process over the growing used-set (twelve requests in code order) and the emitted module as binding sites per namespace (module types, module values incl. tuple/unit struct constructors, variant namespaces of the internal enums) and name-based use sites with Rust's resolution rule (the generic parameter of parse shadows module types inside parse; Self::Error vs a variant named Error). TLC checks for every assignment of 30 hostile names (all preferred internal names, their ...2 forms, S, T, Terminal, Error, Item, Shift, S0, R0, letter-less identifiers) to one role exhaustively and to pairs of roles (sample quick, all 18 672 thorough) that no namespace binds a name twice and every use resolves as intended. Each naming is instantiated, generated for real, the allocator's recorded choices compared, and the emitted module compiled alone by rustc in a crate that only defines payload types without derives; boundary grammars (no terminals, variant-less enums, only `_` fields, letter-less names) likewise.",
+   note="rustc 1.95 is the oracle for `compiles` (the brief's precondition excludes keywords and prelude names). Trusted: TLC; the skeleton grammar covers struct named/tuple/unit, enum with tuple and named variants, two terminals."),
  "C06": dict(engine="shapes", design="5 C06, 3.7",
    technique="TLC enumeration of all fieldset patterns with the shape laws of Emit.tla (MC_Emit shapes) + comparison of the predicted abstract shape with the real emitted type definitions parsed back + rustc type-check of an external client that constructs/destructures every type exactly",
    text="Emit!Shape maps every declaration pattern (struct|variant x named|tuple|empty x used/_ mask x terminal/nonterminal per field, <=3 fields: 338 patterns) to the abstract emitted item (unit/tuple/braced, field order, names, pub on struct fields named and tuple, Box exactly on nonterminals) and TLC checks the laws C06 states. Each pattern is generated for real, the user-visible region of the emitted text is parsed back into the same abstract syntax and compared; terminal enum and nonterminal types must be pub, in declaration order, variants in order, payload types as declared; the parse signature must be generic over IntoIterator<Item = Tok> returning Result<Start, Option<Tok>>. A client in another module constructs and destructures every emitted type without `..`, and calls parse through a fn pointer and three iterator types; rustc must accept it.",
